@@ -153,4 +153,68 @@ def run(tier: str) -> Run:
                 got_ = term_of(o.value, kfi).subst(mapping)
                 r6.check(any(eq_term(got_, w) for w in wants), inst, f'src/scippneutron/conversion/graph/beamline.py:{tbl}',
                          {'computed': T.show(got_), 'definition': T.show(want)}, key=inst)
+    # ---- R7: the public accessors (scn.L1, scn.two_theta, ...) hand out what the beamline graph derives ---------------------
+    r7 = run.rule('R7', 'beamline_components accessors return the coordinate derived by transform_coords with the beamline graph of the requested '
+                        'scatter mode, unchanged in value, unit and dtype (data of any dtype)', 9)
+    from sa.interp import Interp, SVar
+    from sa.scipp_model import Model
+    from sa.units import Unit
+
+    class _AccessorModel(Model):
+        """transform_coords is scipp's: it returns a data array that carries the requested coordinate (a fresh float64 variable here)."""
+
+        def __init__(self):
+            super().__init__()
+            self.calls = []
+            self.derived = None
+
+        def call_method(self, interp, recv, name, args, kwargs, node):
+            if isinstance(recv, SVar) and name == 'transform_coords':
+                target = args[0] if args else kwargs.get('targets')
+                self.calls.append({'target': target, 'graph': kwargs.get('graph', args[1] if len(args) > 1 else None), 'kwargs': {k: v for k, v in kwargs.items() if k != 'graph'}})
+                self.derived = self.new(interp, Rat.sym('derived'), Unit.named('m'), 'float64')
+                interp.track(self.derived) if hasattr(interp, 'track') else None
+                tmp = self.new(interp, recv.term, recv.unit, recv.dtype)
+                tmp.kind = recv.kind
+                tmp.members['coords'] = {target: self.derived} if isinstance(target, str) else {}
+                return tmp
+            return super().call_method(interp, recv, name, args, kwargs, node)
+
+    bmod = repo.module('beamline_components')
+    accessors = [(n, f) for n, f in sorted(bmod.functions.items()) if not n.startswith('_')]
+    if len(accessors) < 6:
+        raise AnalysisError(f'beamline_components has only {len(accessors)} public accessors')
+    for name, afi in accessors:
+        params = [a.arg for a in afi.node.args.args + afi.node.args.kwonlyargs]
+        for scatter in ((True, False) if 'scatter' in params else (None,)):
+            for data_dtype in ('float32', 'float64', 'int64'):
+                T.reset()
+                am = _AccessorModel()
+                ait = Interp(repo, am)
+
+                def go(i, afi=afi, scatter=scatter, data_dtype=data_dtype):
+                    da = SVar(Rat.sym('counts'), Unit.named('counts'), data_dtype, origin='da')
+                    da.kind = 'dataarray'
+                    da.members['coords'] = {}
+                    i.track(da)
+                    return i.call_function(afi, [da], {} if scatter is None else {'scatter': scatter})
+                outs = ait.run_all(go)
+                inst = f'{name}' + ('' if scatter is None else f'[scatter={scatter}]') + f' on {data_dtype} data'
+                rets = [o for o in outs if o.kind == 'return']
+                ok = len(outs) == 1 and len(rets) == 1 and len(am.calls) == 1
+                detail = {'outcomes': [(o.kind, o.exc_type, o.where) for o in outs], 'transform_coords_calls': len(am.calls)}
+                if ok:
+                    call_ = am.calls[0]
+                    want_graph = beamline_graph(repo, True if scatter is None else scatter)
+                    g = call_['graph']
+                    same_graph = isinstance(g, dict) and sorted(map(str, g)) == sorted(map(str, want_graph)) and \
+                        all(isinstance(g[k], FuncRef) and isinstance(want_graph[k], FuncRef) and g[k].fi.fq == want_graph[k].fi.fq for k in g)
+                    lossy = [dict(e.detail, where=e.where) for e in events(rets[0], 'narrowing-cast', 'int-unit-conversion')]
+                    v = rets[0].value
+                    same_value = v is am.derived or (isinstance(v, SVar) and isinstance(v.term, Rat) and v.term.eq(am.derived.term)
+                                                     and v.unit == am.derived.unit and v.dtype == am.derived.dtype)
+                    ok = call_['target'] == name and same_graph and same_value and not lossy
+                    detail = {'coordinate_requested': call_['target'], 'graph_is_the_beamline_graph': same_graph,
+                              'returns_the_derived_coordinate_unchanged': same_value, 'lossy_conversions': lossy[:2]}
+                r7.check(ok, inst, loc(afi), detail, key=f'accessor:{name}')
     return run
